@@ -122,4 +122,34 @@ VH_CMD(decl) {
     return out;
 }
 
+// in:  lang ("c"|"cpp")  AST dump text (as clang -Xclang -ast-dump prints it)
+// out: per token four fields: str  varId  position of the variable's name token  position of the function's tokenDef
+//      (the real clangimport::parseClangAstDump of the library, not the re-included copy)
+VH_CMD(import) {
+    static const Settings settings;
+    QuietLogger logger;
+    const bool cpp = a.at(0) == "cpp";
+    TokenList tokenlist{settings, cpp ? Standards::Language::CPP : Standards::Language::C};
+    tokenlist.appendFileIfNew(cpp ? "t.cpp" : "t.c");
+    Tokenizer tokenizer(std::move(tokenlist), logger);
+    std::istringstream ast(a.at(1));
+    clangimport::parseClangAstDump(tokenizer, ast);
+    std::map<const Token*, long long> pos;
+    long long k = 0;
+    for (const Token* t = tokenizer.tokens(); t; t = t->next()) pos[t] = k++;
+    auto at = [&](const Token* t) -> std::string {
+        if (!t) return "";
+        auto it = pos.find(t);
+        return it == pos.end() ? "?" : std::to_string(it->second);
+    };
+    Fields out;
+    for (const Token* t = tokenizer.tokens(); t; t = t->next()) {
+        out.push_back(t->str());
+        out.push_back(std::to_string(t->varId()));
+        out.push_back(t->variable() ? at(t->variable()->nameToken()) : std::string());
+        out.push_back(t->function() ? at(t->function()->tokenDef) : std::string());
+    }
+    return out;
+}
+
 VH_MAIN()
